@@ -528,10 +528,12 @@ class FakeClientFactory(object):
 
   def reinjectDatapoints(self):
     metrics = list(self.queue)
+    # Empty the buffer first: a re-injected datapoint that still has no usable
+    # destination is routed straight back into this buffer and must stay there.
+    self.queue.clear()
     log.clients("Re-injecting %d metrics from %s" % (len(metrics), self))
     for metric, datapoint in metrics:
         state.events.metricGenerated(metric, datapoint)
-    self.queue.clear()
 
 
 class CarbonClientManager(Service):
